@@ -80,6 +80,11 @@ class Rec:
         self.nontrivial = False
         self.excluded: list[str] = []
         self.tmp: Path | None = None
+        self.subcases: list[tuple[str, bool]] = []  # executions enumerated inside one generated case (e.g. fault sites)
+
+    def sub(self, subcase: Any, nontrivial: bool = True):
+        """Register one enumerated sub-execution of this case (counted as an evaluation of its own)."""
+        self.subcases.append((chash(subcase), bool(nontrivial)))
 
     def cls(self, *names: str):
         self.classes.extend(names)
@@ -150,7 +155,8 @@ def exc_chain_text(exc: BaseException) -> str:
         out.append(str(e))
         out.extend(str(n) for n in getattr(e, "__notes__", []) or [])
         todo.append(e.__cause__)
-        todo.append(e.__context__)
+        if not e.__suppress_context__:  # "raise X from None" hides the context from what the caller is shown
+            todo.append(e.__context__)
         if isinstance(e, BaseExceptionGroup):
             todo.extend(e.exceptions)
     return "\n".join(out)
@@ -225,8 +231,11 @@ class WorkerState:
             shutil.rmtree(casedir, ignore_errors=True)
         if not collect:
             return rec.failures
-        self.evaluations += 1
-        self.per_part[label or part] = self.per_part.get(label or part, 0) + 1
+        self.evaluations += max(1, len(rec.subcases))
+        self.per_part[label or part] = self.per_part.get(label or part, 0) + max(1, len(rec.subcases))
+        for h, nt in rec.subcases:
+            if nt:
+                self.nontrivial.add(chash([part, h]))
         for c in rec.classes:
             self.classes[c] = self.classes.get(c, 0) + 1
         for c in rec.excluded:
